@@ -186,8 +186,9 @@ def make_wrappers(ptn, tr, alg, dt_ref=None):
         loc = frame_locals
         psi, H, BL, BR = loc.get('psi'), loc.get('H'), loc.get('BL'), loc.get('BR')
         if psi is None or H is None or BL is None or BR is None:
-            tr.append(dict(ev='local_unlocated'))
-            return
+            # the integrator keeps its state under other names: the observer cannot locate the local problem (wrap.patched
+            # turns this into a hook_error record; the trace is then validated on its result clauses only)
+            raise LookupError('locals psi / H / BL / BR not found in the calling frame')
         dt0 = dt_ref if dt_ref is not None else loc.get('dt', None)
         kl = _index_of(BL, Lb)
         kr = _index_of(BR, Rb)
